@@ -58,6 +58,21 @@ CLAIMED = {
    note="Trusted: SysVABI.tla/TraceABI.tla; x86-64 only (the host).",
    technique="TLC-derived signatures replayed through an assembly trampoline; recorded Call/Obs/Ret traces validated by TraceABI.tla",
    design="DESIGN.md §4 C06, A.4"),
+ "C07": dict(level="model_checking",
+   text="TLA+ specs CExpr (C11 6.3.1 / 6.4.4.1 / 6.5 integer expression typing and values on LP64 incl. casts, assignments, ++/--, bit-field "
+        "operands and stores through pointers to scalars), CStmt (continuation-stack control flow: if/while/do/for/switch with fall-through, "
+        "break/continue/goto/return) and CInit (6.7.9 initialisers with designators, nested lists, strings, bit-fields) are evaluated by TLC, "
+        "exhaustive BFS within the .cfg bounds plus seeded simulation to depth 3. Every generated case carries the spec's type/value, event "
+        "sequence or member values. Each case is rendered into C - each expression both where C requires a constant expression and over "
+        "volatile and plain objects - and run under gcc and under c2m per engine. VIOLATION iff spec == gcc and c2m differs, rejects, "
+        "crashes or hangs.",
+   note="Quick about 90k cases (expression depth <= 3, statement trees depth <= 3, initialiser lists of <= 2 items) with -ei and -O2 -eg; "
+        "thorough about 1.2M cases with -ei, -eg -O0..3, -el, -eb. Not exhaustive as a whole (the sim jobs sample). Integer fragment only; "
+        "implementation-defined choices fixed as gcc documents them (modular conversion to signed, arithmetic >> of negatives, signed plain "
+        "char); UB trees are dropped by the spec. One listed finding (positional initialiser after a string-literal member).",
+   technique="TLC function tables and state graphs of C semantics specs with two-oracle replay (gcc as second oracle) through c2m, per-case "
+             "child processes, failing cases re-run before report",
+   design="DESIGN.md §4 C07, §3.9"),
  "C08": dict(level="model_checking",
    text="TLC enumerates struct/union declarations of spec/CLayout.tla (scalar, array, bit-field incl. unnamed/zero-width, nested and anonymous "
         "members; flat to 3 members exhaustively, nested and long ones by simulation) and computes size, alignment, every leaf's offset/bit "
